@@ -14,7 +14,7 @@ class Case:
         self.timeout = timeout; self.meta = dict(meta or {}); self.witness = witness; self.tv = tv; self.mem_gb = mem_gb
         self.extra = list(extra); self.tv_seeds = tv_seeds; self.native_defs = list(native_defs); self.replay_san = replay_san
         self.witness_timeout = witness_timeout or timeout; self.object_bits = object_bits; self.cbmc = True
-        self.fixture_b = None
+        self.fixture_b = None; self.cover = False
     def fx_defs(self):
         fx = self.fixture
         if self.fixture_b is not None:
@@ -141,6 +141,10 @@ def execute(pid, tier, seed, cases, assumptions, extra_cov=None, budget_s=None, 
         if exdefs:
             q2 = c.query(exdefs, suffix='+excl'); q2.meta['excluded_known_findings'] = [k['id'] for k in kf]
             queries.append(q2); qcase[q2.name] = (c, 'excl')
+        if c.cover:
+            # reachability of the harness's COVER() goals under the same bounds (cbmc --cover cover, built-in incremental SAT)
+            qc = c.query(['COVERAGE'] + exdefs, suffix='+cover', expect='covered'); qc.cover = True; qc.solvers = ['default']; qc.checks = 'none'
+            queries.append(qc); qcase[qc.name] = (c, 'cover')
         if c.witness:
             qw = c.query(['WITNESS'] + exdefs, suffix='+witness', expect='fails-witness', witness_of=c.name + ('+excl' if exdefs else ''), timeout=c.witness_timeout)
             queries.append(qw); qcase[qw.name] = (c, 'witness')
@@ -151,7 +155,7 @@ def execute(pid, tier, seed, cases, assumptions, extra_cov=None, budget_s=None, 
     rq = []
     for r in results:
         c, kind = qcase[r['name']]
-        if kind != 'witness' and r.get('status') == 'fails' and not any('unwinding assertion' in d for _, d in r.get('failed', [])):
+        if kind not in ('witness', 'cover') and r.get('status') == 'fails' and not any('unwinding assertion' in d for _, d in r.get('failed', [])):
             q2 = c.query(c._exdefs if kind == 'excl' else [], suffix=('+excl' if kind == 'excl' else '') + '+replaytrace'); q2.noslice = True
             rq.append((r['name'], q2))
     retrace = {}
@@ -165,9 +169,16 @@ def execute(pid, tier, seed, cases, assumptions, extra_cov=None, budget_s=None, 
     for r in results:
         c, kind = qcase[r['name']]
         st = r.get('status')
+        if kind == 'cover':
+            if st == 'uncovered':
+                broken.append('coverage goal(s) of %s unreachable (the harness does not exercise what it claims): %s' % (c.name, [d for _, d, g in r.get('cover', []) if g != 'SATISFIED'][:3]))
+            elif st != 'covered': undecided.append(r['name'])
+            continue
         if kind == 'witness':
             if st == 'holds': broken.append('vacuous harness: witness of %s is unreachable' % c.name)
             elif st != 'fails': undecided.append(r['name'])
+            elif r.get('failed') and not any('witness' in d for _, d in r['failed']):
+                broken.append('witness of %s failed on something other than the end-of-harness assertion: %s' % (c.name, [d for _, d in r['failed']][:2]))
             else:
                 # the witness must be the ONLY thing failing, otherwise it may be masked
                 pass
@@ -212,7 +223,7 @@ def execute(pid, tier, seed, cases, assumptions, extra_cov=None, budget_s=None, 
     for cn, path, descs in violations:
         log('VIOLATION property=%s replay=%s   # case %s: %s' % (pid, path, cn, '; '.join(descs[:3])))
     for b in broken: log('BROKEN: ' + b)
-    main_q = [r for r in results if qcase[r['name']][1] != 'witness']
+    main_q = [r for r in results if qcase[r['name']][1] not in ('witness', 'cover')]
     if undecided: log('NO-VERDICT (timeout/memory/skipped, not counted as success): ' + ', '.join(undecided[:20]))
     extra = dict(extra_cov or {})
     extra.update(translation_validation=dict(harness_builds=len(tvs), paired_runs=sum(t['runs'] for t in tvs), feasible_runs=sum(t['feasible'] for t in tvs),
